@@ -47,6 +47,7 @@ def verus(name, props, clause, fn, tier="quick"):
 
 ROOT = "verif_root::"
 EN = "energy::verif_energy::n::"
+RN = "verif_root::n::"
 
 OBLIGATIONS = [
     # ---- C11 classifiers (complete proofs over the full float domain) --------------------------------
@@ -90,6 +91,13 @@ OBLIGATIONS = [
     native("n_c08_kdata_walls", ["C08"], "C08.kdata.walls", "KData::from(&EnergyProps)", EN + "n_c08_kdata_walls"),
     native("n_c08_kdata_windows", ["C08"], "C08.kdata.windows", "KData::from(&EnergyProps)", EN + "n_c08_kdata_windows"),
     native("n_c08_kdata_bridges", ["C08"], "C08.kdata.bridges", "KData::from(&EnergyProps)", EN + "n_c08_kdata_bridges"),
+    native("n_c11_poly", ["C11"], "C11.poly", "Polygon::area / Polygon::perimeter", RN + "n_c11_poly"),
+    native("n_c11_props_model", ["C11", "C08", "C09"], "C11.props", "EnergyProps::from(&Model) / Model::global_ventilation_rate / Space::area / Space::height_net / Wall::area_net", RN + "n_c11_props_model"),
+    native("n_c11_scaling", ["C11"], "C11.scaling", "EnergyProps::from(&Model)", RN + "n_c11_scaling"),
+    native("n_c15_check", ["C15"], "C15.check", "check(&Model) / EnergyIndicators::compute", RN + "n_c15_check"),
+    native("n_c09_n50", ["C09"], "C09.n50", "N50Data::from(&EnergyProps)", EN + "n_c09_n50"),
+    native("n_c10_qsoljul", ["C10"], "C10.qsoljul", "QSolJulData::from(&EnergyProps, &HashMap<Orientation,f32>)", EN + "n_c10_qsoljul"),
+    native("n_c10_july_table", ["C10", "C20"], "C10.table", "climatedata::total_radiation_in_july_by_orientation", EN + "n_c10_july_table"),
 ]
 
 PROPERTIES = {
@@ -104,4 +112,6 @@ PROPERTIES = {
     "C12": {"level": "proof"},
     "C14": {"level": "proof"},
     "C08": {"level": "proof"},
+    "C10": {"level": "proof"},
+    "C15": {"level": "exploration"},
 }
